@@ -74,7 +74,7 @@ LitFor(t, v) ==
 VARIABLE cell
 PairA == {Absent, Null, K("iS"), K("sTXT"), K("fFRAC")}
 PairB == {Absent, Null, K("eX"), K("eZ"), Lst(<<K("eX"), Null>>), Lst(<<K("eY")>>), K("iS")}
-Cells == IF MODE = "pairs" THEN {[ti |-> 2, hasDefault |-> FALSE, present |-> TRUE, v |-> Null, va |-> a, vb |-> b] : a \in PairA, b \in PairB}
+Cells == IF MODE \in {"pairs", "pairs2"} THEN {[ti |-> 2, hasDefault |-> FALSE, present |-> TRUE, v |-> Null, va |-> a, vb |-> b] : a \in PairA, b \in PairB}
          ELSE IF MODE = "vars"
          THEN UNION {{[ti |-> i, hasDefault |-> d, present |-> p, v |-> v] : d \in BOOLEAN, p \in BOOLEAN, v \in Cands(TypeList[i])} : i \in TLO..(IF THI > Len(TypeList) THEN Len(TypeList) ELSE THI)}
          ELSE UNION {{[ti |-> i, hasDefault |-> FALSE, present |-> TRUE, v |-> v] : v \in Cands(TypeList[i])} : i \in TLO..(IF THI > Len(TypeList) THEN Len(TypeList) ELSE THI)}
@@ -136,19 +136,19 @@ R1_Ways == (Relevant /\ cell.present) =>
 
 GoodArgs(t) == CoerceArgsFull(<<IField("a", t, TRUE, LitFor(t, Good(t)))>>, <<>>, <<>>)
 \* ---- two variables: one offending variable never masks another ------------------------------
-PVDefs == << [name |-> "a", type |-> Nn(Nm("Int")), hasDefault |-> FALSE, default |-> NoLit],
+PVDefs == << [name |-> "a", type |-> IF MODE = "pairs2" THEN Nm("Int") ELSE Nn(Nm("Int")), hasDefault |-> FALSE, default |-> NoLit],
              [name |-> "b", type |-> Li(Nn(Nm("E"))), hasDefault |-> FALSE, default |-> NoLit] >>
-PGiven == LET da == IF MODE = "pairs" /\ ~IsAbsent(cell.va) THEN {"a"} ELSE {}
-              db == IF MODE = "pairs" /\ ~IsAbsent(cell.vb) THEN {"b"} ELSE {} IN
+PGiven == LET da == IF MODE \in {"pairs", "pairs2"} /\ ~IsAbsent(cell.va) THEN {"a"} ELSE {}
+              db == IF MODE \in {"pairs", "pairs2"} /\ ~IsAbsent(cell.vb) THEN {"b"} ELSE {} IN
           [x \in da \cup db |-> IF x = "a" THEN cell.va ELSE cell.vb]
 PairRes == CoerceVars(PVDefs, PGiven)
-R1_Pairs == MODE = "pairs" =>
+R1_Pairs == MODE \in {"pairs", "pairs2"} =>
   /\ ("a" \in PairRes.offending <=> VarOutcome(PVDefs[1], PGiven).st = "bad")
   /\ ("b" \in PairRes.offending <=> VarOutcome(PVDefs[2], PGiven).st = "bad")
   /\ (PairRes.refused <=> PairRes.offending # {})
-EmitPairs == MODE = "pairs" => PrintT(ToJson([kind |-> "paircell", given |-> {<<x, PGiven[x]>> : x \in DOMAIN PGiven},
+EmitPairs == MODE \in {"pairs", "pairs2"} => PrintT(ToJson([kind |-> "paircell", atype |-> PVDefs[1].type, given |-> {<<x, PGiven[x]>> : x \in DOMAIN PGiven},
       refused |-> PairRes.refused, offending |-> PairRes.offending,
-      argsA |-> CoerceArgsFull(<<IField("a", Nn(Nm("Int")), FALSE, NoLit)>>, <<[name |-> "a", val |-> [t |-> "var", v |-> "a"]]>>, PairRes.values),
+      argsA |-> CoerceArgsFull(<<IField("a", PVDefs[1].type, FALSE, NoLit)>>, <<[name |-> "a", val |-> [t |-> "var", v |-> "a"]]>>, PairRes.values),
       argsB |-> CoerceArgsFull(<<IField("a", Li(Nn(Nm("E"))), FALSE, NoLit)>>, <<[name |-> "a", val |-> [t |-> "var", v |-> "b"]]>>, PairRes.values)]))
 
 ASSUME PrintT(ToJson([kind |-> "itypes", types |-> TypeList, inputs |-> InputObjs,
